@@ -47,6 +47,7 @@ pub mod c16;
 pub mod c17;
 pub mod c18;
 pub mod c19;
+pub mod fx;
 
 /// name -> native entry point, used by the replay binary
 pub fn registry() -> Vec<(&'static str, fn(&mut BytesSrc))> {
@@ -65,6 +66,7 @@ pub fn registry() -> Vec<(&'static str, fn(&mut BytesSrc))> {
     c16::register(&mut v);
     c18::register(&mut v);
     c19::register(&mut v);
+    fx::register(&mut v);
     c14::register(&mut v);
     c15::register(&mut v);
     c17::register(&mut v);
